@@ -27,6 +27,7 @@ ASSUMPTIONS = [
 TIERS = {"quick": {"runs": 1600}, "thorough": {"runs": 60000}}
 REQUIRED = ["training_priority_updates", "priority_monotone_batches", "law_sweeps", "priority_updates", "reset_max", "weights_checked", "priorities_huge_vs_tiny", "priorities_all_equal", "law_after_wrap_stale_priorities", "update_after_restart"]
 REQUIRED_QUICK = REQUIRED
+CHUNK = 300
 SHRINK_LISTS = [["ops"], ["env", "script"]]
 SHRINK_INTS = [(["n_tasks"], 0), (["obs_dim"], 0), (["act_dim"], 0)]
 CLAUSES = ["law", "update", "maxprio", "weights", "written", "stale", "fields", "task", "window", "trunc"]
